@@ -232,7 +232,7 @@ FOOTER = "\n].\nEval vm_compute in (map check cases).\n"
 
 
 def run(ctx):
-    n = ctx.n(18, 400)
+    n = ctx.n(18, 160)
     terms = []; owners = []; failures = []; infos = []
     stats = dict(by_kind={}, by_obj={}, executions={}, trials=0, curves=0, promoted=0)
     distinct = 0
